@@ -13,6 +13,13 @@
 (* Variant "notrunc": as fixed but the temporary file is opened without        *)
 (*                   truncation (a seeded defect): safe for one edit, unsafe   *)
 (*                   for an edit that follows an interrupted one (Restart).    *)
+(* Variant "shortcount": as fixed but the data is written with ONE unbuffered   *)
+(*                   write whose return value is ignored (seeds R13-C17 /      *)
+(*                   R14-C17): when the kernel takes only part of it (nearly   *)
+(*                   full disk, file size limit) the call still returns, the   *)
+(*                   program goes on and renames a partial file onto M.  A     *)
+(*                   buffered writer turns the same event into an error        *)
+(*                   (TornWrite), which is what "fixed" relies on.             *)
 EXTENDS Core, FsModel
 CONSTANTS Variant
 
@@ -26,7 +33,7 @@ Program == IF Variant = "code"
                   Op("rename", "T1", "M", ""), Op("close", "T1", "", "")>>
            ELSE <<Op("ENC", "", "", ""), Op(IF Variant = "notrunc" THEN "open_create" ELSE "open_trunc", "T1", "", ""),
                   Op("write", "T1", "", "New"),
-                  Op("close", "T1", "", ""), Op("rename", "T1", "M", "")>>
+                  Op("close", "T1", "", ""), Op("rename", "T1", "M", "")>>      \* "fixed", "notrunc", "shortcount"
 
 VARIABLES fs, pc, status, encodable, round
 vars == <<fs, pc, status, encodable, round>>
@@ -47,6 +54,11 @@ Fail == /\ Running /\ Program[pc].kind # "ENC"            \* the operation raise
 TornWrite == /\ Running /\ Program[pc].kind = "write"
              /\ \E k \in {0, 1} : fs' = Torn(fs, Program[pc], k)
              /\ status' \in {"error", "crashed"} /\ UNCHANGED <<pc, encodable, round>>
+\* the kernel takes only part of the data and the call RETURNS (a short count): only a program that ignores the
+\* count goes on as if nothing had happened
+ShortCount == /\ Running /\ Program[pc].kind = "write" /\ Variant = "shortcount"
+              /\ fs' = Torn(fs, Program[pc], 1) /\ pc' = pc + 1
+              /\ UNCHANGED <<status, encodable, round>>
 \* a later edit in the same directory after an interrupted or failed one: what is at M now is
 \* its "Old"; whatever the first run left elsewhere is still there (length unknown)
 Relabel(f) == [c |-> [p \in DOMAIN f.c |-> IF p = "M" THEN "Old"
@@ -55,7 +67,7 @@ Relabel(f) == [c |-> [p \in DOMAIN f.c |-> IF p = "M" THEN "Old"
 Restart == /\ status \in {"crashed", "error"} /\ round = 1 /\ Safe(fs)
            /\ fs' = Relabel(fs) /\ pc' = 1 /\ status' = "running" /\ round' = 2
            /\ encodable' \in BOOLEAN
-Next == StepOp \/ Finish \/ Crash \/ Fail \/ TornWrite \/ Restart
+Next == StepOp \/ Finish \/ Crash \/ Fail \/ TornWrite \/ ShortCount \/ Restart
 Spec == Init /\ [][Next]_vars
 
 \* C17: at every point the metafile path holds the complete old or the complete new metafile
